@@ -110,7 +110,7 @@ def run_case(case):
             viols += v
         # coverage classifiers
         nsteps = sum(1 for e in res["events"] if e[0] == "step")
-        nvec = sum(1 for t in ch.trace if t[0] == "vec")
+        nvec = sum(1 for t in ch.trace if t[0] in ("vec", "vec-retry"))
         rej = nvec - sum(1 for e in res["events"] if e[0] == "step-result" and e[3])
         adds = [e for e in res["events"] if e[0] == "add"]
         stats["adds_checked"] += len(adds)
